@@ -234,7 +234,7 @@ Definition word_oracle (fs : fileset) (inp : input) (m : wsmode) (c d : N) (o : 
   match spec_lefttrim_word inp m c d (i_offset inp) with
   | WAccept q =>
     obs_eqb (OL (leaves_of (raw_nodes o)))
-            (OL [o_node (NTerm [c] (VRune c) q (q + 1)); o_node (NTerm [d] (VRune d) (q + 1) (q + 2))]) &&
+            (OL [o_node inp (NTerm [c] (VRune c) q (q + 1)); o_node inp (NTerm [d] (VRune d) (q + 1) (q + 2))]) &&
     obs_eqb (raw_field o 1) onone
   | WWs w =>
     match raw_nodes o with [] => true | _ => false end &&
@@ -249,8 +249,8 @@ Definition tokens_oracle (fs : fileset) (inp : input) (ts : list tokspec) (o : o
   match spec_tokens inp ts (i_offset inp) with
   | SAccept ns e =>
     (* accepted tokens: starts, ends (behind the right run), values *)
-    obs_eqb (OL rawl) (OL (map o_node ns)) &&
-    (if is_eof inp e then is_tag top "Node" && obs_eqb (OL (leaves top)) (OL (map o_node ns))
+    obs_eqb (OL rawl) (OL (map (o_node inp) ns)) &&
+    (if is_eof inp e then is_tag top "Node" && obs_eqb (OL (leaves top)) (OL (map (o_node inp) ns))
      else is_tag top "Err")
   | SReject e =>
     match raw_nodes o with [] => true | _ => false end &&
